@@ -193,3 +193,7 @@ func stripConv(v ssa.Value) ssa.Value {
 		}
 	}
 }
+
+// AllocStores lists every store to a local, from its owner and from the
+// literals that capture it.
+func (p *Prog) AllocStores(root *ssa.Alloc) []*ssa.Store { return p.allocStores(root) }
